@@ -236,10 +236,24 @@ func runC20(cfg runCfg) error {
 		initObs := observeConfig(c, es, jp)
 		nedit := 2 + r.Intn(7)
 		var files, observed, freshObs []string
+		var prevEdit *cfgFile
 		interesting := false
 		var texts []string
 		for e := 0; e < nedit; e++ {
 			f := genCfgFile(r, urls[:4], pems, false)
+			if prevEdit != nil && (prevEdit.Kind == "bad_duration" || prevEdit.Kind == "wrong_type") && r.Intn(2) == 0 {
+				// the typo-only fix of the edit that was just rejected: the same file with the offending key removed
+				var doc map[string]interface{}
+				if json.Unmarshal([]byte(prevEdit.Text), &doc) == nil {
+					delete(doc, "poll-interval")
+					delete(doc, "gateway-port")
+					b, _ := json.Marshal(doc)
+					fixed := *prevEdit
+					fixed.Text, fixed.Loadable, fixed.Kind, fixed.Poll = string(b), true, "typo_fix", ""
+					f = &fixed
+				}
+			}
+			prevEdit = f
 			if !f.Loadable || !f.HasSvc || !f.HasRoles || !f.HasKeys || f.Poll == "bad" {
 				interesting = true
 			}
